@@ -9,6 +9,9 @@ flavour.  Faults:
             torn writes, a reader overtaking its writer)
   crash     the producer really dies at byte k inside a write() (torn write)
   overtake  a reader opens the file while its writer is still going
+  follow    one long-lived reader follows the file while it grows (seeded
+            writer / reader schedule; it asks for a record only when a
+            further complete section has been stored)
   length    a `length` raised beyond the data present / made negative / made
             non-numeric
 Oracle: with R = records of the intact file (same reader, same block size),
@@ -37,7 +40,8 @@ RULE = ('per generated file (writer- or foreign-produced) up to 4000 bytes '
         'the block size says the sweep is too expensive, in which case an '
         'evenly spaced subset is read (probe cut_sweep_thinned_for_cost); '
         'larger files: a grid plus every section boundary; plus producer '
-        'crashes inside write(), readers overtaking writers, and length '
+        'crashes inside write(), readers overtaking writers, a reader '
+        'following the growing file, and length '
         'options raised beyond EOF / negative / non-numeric; an evaluation '
         'is one reader run over one faulty copy; non-trivial = the cut lies '
         'strictly inside the file (or a length fault that took); distinct = '
